@@ -125,4 +125,362 @@ pub mod proofs {
     // The chunk-header round trips (contract_data_header_roundtrip / contract_tick_header_roundtrip) go through
     // binrw's generic io code; CBMC did not finish them within 15-25 minutes.  They are decided by the Verus
     // unit demo_hdr instead (exact header bytes + round-trip lemma).
+    // ---- sampled (native PRNG driver only; never counted as proved) ----
+    #[cfg(not(kani))]
+    fn big_stack<F: FnOnce() + Send + 'static>(f: F) {
+        // readers and writers hold several 64 KiB buffers by value; unoptimized builds copy them around
+        let r = std::thread::Builder::new().stack_size(64 << 20).spawn(f).unwrap().join();
+        if let Err(e) = r {
+            std::panic::resume_unwind(e);
+        }
+    }
+    #[cfg(not(kani))]
+    fn draw_bytes(max: usize) -> Vec<u8> {
+        // lengths on both sides of the chunk size classes (29/30, 255/256) are likely
+        let n = match draw::usize_le(9) {
+            0 => 0,
+            1 => 29,
+            2 => 30,
+            3 => 255,
+            4 => 256,
+            5 => draw::usize_le(40),
+            6 => 200 + draw::usize_le(120),
+            _ => draw::usize_le(max),
+        }
+        .min(max);
+        let fill = draw::u8();
+        let mode = draw::usize_le(2);
+        (0..n).map(|i| match mode { 0 => fill, 1 => (i as u8).wrapping_mul(fill | 1), _ => draw::u8() }).collect()
+    }
+    #[cfg(not(kani))]
+    harness!(sampled_demo_raw_roundtrip_heavy, unwind = 1, {
+        use super::sampled::*;
+        let h = Hdr {
+            net_version: draw_bytes(63).into_iter().filter(|&b| b != 0).collect(),
+            map_name: draw_bytes(63).into_iter().filter(|&b| b != 0).collect(),
+            sha: if draw::bool() { Some(draw::bytes::<32>()) } else { None },
+            crc: draw::u32(),
+            server: draw::bool(),
+            length: draw::i32(),
+            timestamp: draw_bytes(19).into_iter().filter(|&b| b != 0).collect(),
+            map: draw_bytes(600),
+        };
+        let mut chunks = Vec::new();
+        let mut tick: i64 = draw::i32() as i64;
+        for _ in 0..draw::usize_le(10) {
+            match draw::usize_le(3) {
+                0 => {
+                    let gap = [1i64, 2, 30, 31, 32, 63, 64, 255, 256, 100000][draw::usize_le(9)];
+                    if tick + gap > i32::MAX as i64 {
+                        continue;
+                    }
+                    tick += gap;
+                    chunks.push(Ch::Tick(tick as i32, draw::bool()));
+                }
+                1 => chunks.push(Ch::Snap(draw_bytes(1500))),
+                2 => chunks.push(Ch::Delta(draw_bytes(1500))),
+                _ => chunks.push(Ch::Msg(draw_bytes(700))),
+            }
+        }
+        draw::reached();
+        big_stack(move || contract_raw_roundtrip(&h, &chunks));
+    });
+    #[cfg(not(kani))]
+    harness!(sampled_demo_typed_roundtrip_heavy, unwind = 1, {
+        use super::sampled::*;
+        let mut steps = Vec::new();
+        let mut tick: i32 = draw::usize_le(100) as i32;
+        for _ in 0..draw::usize_le(10) {
+            if draw::usize_le(4) == 0 {
+                let n = draw::usize_le(12);
+                steps.push(Step::Msg((0..n).map(|_| draw::u8()).collect()));
+                continue;
+            }
+            let mut objs: Vec<(Obj, u16)> = Vec::new();
+            for _ in 0..draw::usize_le(4) {
+                let ty = 1 + draw::usize_le(3) as u16;
+                let id = draw::usize_le(2) as u16;
+                if objs.iter().any(|(o, i)| o.ty == ty && *i == id) {
+                    continue;
+                }
+                let data = (0..obj_len(ty)).map(|_| draw::i32()).collect();
+                objs.push((Obj { ty, data }, id));
+            }
+            // one step in five offers a tick that does not increase (must be refused, nothing else may change)
+            let t = if draw::usize_le(4) == 0 {
+                tick - draw::usize_le(3) as i32
+            } else {
+                tick += [1, 1, 2, 31, 32, 33, 250, 251, 300][draw::usize_le(8)];
+                tick
+            };
+            steps.push(Step::Snap(t, objs));
+        }
+        draw::reached();
+        big_stack(move || contract_typed_roundtrip(&steps));
+    });
+
+}
+
+// ---- sampled contracts over the public demo API (C15): native PRNG driver only ------------------------------------
+// binrw / io::Cursor / the snapshot BTreeMaps are out of reach of Kani; the Verus unit demo_hdr proves the chunk
+// header codec.  These bodies state the PROPERTY-level contract end to end and run on sampled inputs to obtain
+// replayable counterexamples; they prove nothing.
+#[cfg(not(kani))]
+pub mod sampled {
+    use crate::ddnet::Chunk;
+    use crate::ddnet::DemoReader;
+    use crate::ddnet::DemoWriter;
+    use crate::DemoKind;
+    use crate::RawChunk;
+    use crate::Reader;
+    use crate::Writer;
+    use libtw2_common::digest::Sha256;
+    use libtw2_gamenet_common::error::Error as GError;
+    use libtw2_gamenet_common::msg::MessageId;
+    use libtw2_gamenet_common::msg::SystemOrGame;
+    use libtw2_gamenet_common::snap_obj::TypeId;
+    use libtw2_gamenet_common::traits;
+    use libtw2_packer::ExcessData;
+    use libtw2_packer::IntUnpacker;
+    use libtw2_packer::Packer;
+    use libtw2_packer::Unpacker;
+    use libtw2_warn::Warn;
+    use std::io::Cursor;
+
+    // ---- raw level ----
+    #[derive(Clone, Debug, PartialEq)]
+    pub enum Ch {
+        Tick(i32, bool),
+        Snap(Vec<u8>),
+        Delta(Vec<u8>),
+        Msg(Vec<u8>),
+    }
+    pub struct Hdr {
+        pub net_version: Vec<u8>,
+        pub map_name: Vec<u8>,
+        pub sha: Option<[u8; 32]>,
+        pub crc: u32,
+        pub server: bool,
+        pub length: i32,
+        pub timestamp: Vec<u8>,
+        pub map: Vec<u8>,
+    }
+    /// every accepted chunk sequence is read back identically (messages zero-padded to a multiple of four), header
+    /// fields equal, no warnings
+    pub fn contract_raw_roundtrip(h: &Hdr, chunks: &[Ch]) {
+        let mut file: Vec<u8> = Vec::new();
+        {
+            let w = Writer::new(
+                Cursor::new(&mut file),
+                &h.net_version,
+                &h.map_name,
+                h.sha.map(Sha256),
+                h.crc,
+                if h.server { DemoKind::Server } else { DemoKind::Client },
+                h.length,
+                &h.timestamp,
+                &h.map,
+            );
+            // a negative length is not a valid header (the reader asserts length >= 0): the writer must refuse it
+            // with an error; every other header here is valid and must be accepted
+            let mut w = match w {
+                Err(_) if h.length < 0 => return,
+                Err(e) => panic!("writer refused a valid header: {:?}", e),
+                Ok(_) if h.length < 0 => panic!("writer accepted a negative length, which the reader refuses"),
+                Ok(w) => w,
+            };
+            for c in chunks {
+                match c {
+                    Ch::Tick(t, k) => w.write_tick(*k, *t).expect("write_tick"),
+                    Ch::Snap(d) => w.write_snapshot(d).expect("write_snapshot"),
+                    Ch::Delta(d) => w.write_snapshot_delta(d).expect("write_snapshot_delta"),
+                    Ch::Msg(d) => w.write_message(d).expect("write_message"),
+                }
+            }
+        }
+        let mut warnings: Vec<crate::Warning> = Vec::new();
+        let mut r = Reader::new(Cursor::new(&file[..]), &mut warnings).expect("reader refused the written file");
+        assert!(r.net_version() == &h.net_version[..], "net_version");
+        assert!(r.map_name() == &h.map_name[..], "map_name");
+        assert!(r.map_crc() == h.crc, "map_crc");
+        assert!(r.length() == h.length, "length");
+        assert!(r.timestamp() == &h.timestamp[..], "timestamp");
+        assert!(r.map_data() == &h.map[..], "map data");
+        assert!(r.map_size() as usize == h.map.len(), "map size");
+        assert!(r.map_sha256().map(|s| s.0) == h.sha, "sha256");
+        assert!(matches!((r.kind(), h.server), (DemoKind::Server, true) | (DemoKind::Client, false)), "kind");
+        let mut got: Vec<Ch> = Vec::new();
+        loop {
+            match r.read_chunk(&mut warnings).expect("read_chunk failed") {
+                None => break,
+                Some(RawChunk::Tick { tick, keyframe }) => got.push(Ch::Tick(tick, keyframe)),
+                Some(RawChunk::Snapshot(d)) => got.push(Ch::Snap(d.to_vec())),
+                Some(RawChunk::SnapshotDelta(d)) => got.push(Ch::Delta(d.to_vec())),
+                Some(RawChunk::Message(d)) => got.push(Ch::Msg(d.to_vec())),
+                Some(RawChunk::Unknown) => panic!("unknown chunk read back"),
+            }
+        }
+        assert!(warnings.is_empty(), "warnings while reading");
+        let want: Vec<Ch> = chunks
+            .iter()
+            .map(|c| match c {
+                Ch::Msg(d) => {
+                    let mut d = d.clone();
+                    while d.len() % 4 != 0 {
+                        d.push(0);
+                    }
+                    Ch::Msg(d)
+                }
+                c => c.clone(),
+            })
+            .collect();
+        assert!(got == want, "chunk sequence differs");
+    }
+
+    // ---- typed level: a minimal protocol (objects are (type, ints), messages are raw bytes) ----
+    #[derive(Clone, Debug, PartialEq, Eq, PartialOrd, Ord)]
+    pub struct Obj {
+        pub ty: u16,
+        pub data: Vec<i32>,
+    }
+    impl traits::SnapObj for Obj {
+        fn decode_obj<W: Warn<ExcessData>>(_warn: &mut W, obj_type_id: TypeId, p: &mut IntUnpacker) -> Result<Obj, GError> {
+            let ty = match obj_type_id {
+                TypeId::Ordinal(t) => t,
+                TypeId::Uuid(_) => return Err(GError::UnknownId),
+            };
+            let mut data = Vec::new();
+            while !p.is_empty() {
+                data.push(p.read_int().unwrap());
+            }
+            Ok(Obj { ty, data })
+        }
+        fn obj_type_id(&self) -> TypeId {
+            TypeId::Ordinal(self.ty)
+        }
+        fn encode(&self) -> &[i32] {
+            &self.data
+        }
+    }
+    #[derive(Clone, Debug, PartialEq)]
+    pub struct Msg(pub Vec<u8>);
+    impl<'a> traits::Message<'a> for Msg {
+        fn decode_msg<W: Warn<libtw2_packer::Warning>>(
+            _warn: &mut W,
+            _msg_id: SystemOrGame<MessageId, MessageId>,
+            p: &mut Unpacker<'a>,
+        ) -> Result<Msg, GError> {
+            Ok(Msg(p.read_rest().unwrap().to_vec()))
+        }
+        fn msg_id(&self) -> SystemOrGame<MessageId, MessageId> {
+            SystemOrGame::Game(MessageId::Ordinal(5))
+        }
+        fn encode_msg<'d, 's>(&self, mut p: Packer<'d, 's>) -> Result<&'d [u8], libtw2_buffer::CapacityError> {
+            p.write_rest(&self.0)?;
+            Ok(p.written())
+        }
+    }
+    pub struct Proto;
+    impl traits::ProtocolStatic for Proto {
+        type SnapObj = Obj;
+        fn obj_size(type_id: u16) -> Option<u32> {
+            // types 1 and 2 have pre-agreed sizes, the others are explicit
+            match type_id {
+                1 => Some(1),
+                2 => Some(2),
+                _ => None,
+            }
+        }
+    }
+    impl<'a> traits::Protocol<'a> for Proto {
+        type Game = Msg;
+        type System = Msg;
+    }
+    pub fn obj_len(ty: u16) -> usize {
+        match ty {
+            1 => 1,
+            2 => 2,
+            3 => 0,
+            _ => 3,
+        }
+    }
+
+    #[derive(Clone, Debug)]
+    pub enum Step {
+        /// write_snap(tick, objects): tick is absolute; `expect_refused` when it does not increase
+        Snap(i32, Vec<(Obj, u16)>),
+        Msg(Vec<u8>),
+    }
+    /// the typed writer refuses non-increasing ticks with TooLowTickNumber and nothing else changes; what the typed
+    /// reader reports per tick is exactly what was accepted, across key frames and deltas, without warnings
+    pub fn contract_typed_roundtrip(steps: &[Step]) {
+        let mut file: Vec<u8> = Vec::new();
+        let mut expected: Vec<(i32, Vec<(Obj, u16)>)> = Vec::new();
+        let mut expected_msgs = 0usize;
+        {
+            let mut w = DemoWriter::<Proto>::new(
+                Cursor::new(&mut file),
+                b"0.6 626fce9a778df4d4",
+                b"dm1",
+                None,
+                0x1234_5678,
+                DemoKind::Server,
+                0,
+                b"2024-01-01_00-00-00",
+                b"",
+            )
+            .expect("DemoWriter::new");
+            let mut last: Option<i32> = None;
+            for s in steps {
+                match s {
+                    Step::Snap(tick, objs) => {
+                        let r = w.write_snap(*tick, objs.iter().map(|(o, id)| (o, *id)));
+                        let must_refuse = *tick < 0 || last.map_or(false, |l| *tick <= l);
+                        if must_refuse {
+                            match r {
+                                Err(crate::ddnet::WriteError::TooLowTickNumber) => {}
+                                Err(e) => panic!("wrong error for a non-increasing tick: {}", e),
+                                Ok(()) => panic!("non-increasing tick accepted"),
+                            }
+                        } else {
+                            if let Err(e) = r {
+                                panic!("write_snap({}) failed: {}", tick, e);
+                            }
+                            last = Some(*tick);
+                            let mut o = objs.clone();
+                            o.sort();
+                            expected.push((*tick, o));
+                        }
+                    }
+                    Step::Msg(m) => {
+                        w.write_msg(&Msg(m.clone())).expect("write_msg");
+                        expected_msgs += 1;
+                    }
+                }
+            }
+        }
+        let mut warnings: Vec<crate::ddnet::Warning> = Vec::new();
+        let mut r = DemoReader::<Proto>::new(Cursor::new(&file[..]), &mut warnings).expect("DemoReader::new");
+        let mut actual: Vec<(i32, Vec<(Obj, u16)>)> = Vec::new();
+        let mut cur = None;
+        let mut msgs = 0usize;
+        loop {
+            match r.next_chunk(&mut warnings) {
+                Ok(None) => break,
+                Ok(Some(Chunk::Tick(t))) => cur = Some(t),
+                Ok(Some(Chunk::Snapshot(objs))) => {
+                    let t = cur.take().expect("snapshot without tick");
+                    let mut o: Vec<(Obj, u16)> = objs.map(|(o, id)| (o.clone(), *id)).collect();
+                    o.sort();
+                    actual.push((t, o));
+                }
+                Ok(Some(Chunk::Message(_))) => msgs += 1,
+                Ok(Some(Chunk::Invalid)) => panic!("invalid chunk read back"),
+                Err(e) => panic!("read error: {}", e),
+            }
+        }
+        assert!(warnings.is_empty(), "warnings while reading: {:?}", warnings.len());
+        assert!(msgs == expected_msgs, "number of messages differs");
+        assert!(actual == expected, "object sets per tick differ");
+    }
 }
